@@ -22,6 +22,7 @@ func init() {
 			"merge iterator rules of C04 (every non-empty stream contributes its first record, nothing else)",
 			"PV-API pattern literals are consumed as prefixes; KeyToLabel class table (C20)",
 			"PV-API IsValidLabel (which packed fields unpack accepts)",
+			"PV-ALIAS label values are not rewritten in place; record bodies own their bytes",
 		},
 		NotDecided: []string{"library semantics of strings.Contains / regexp / netip", "that the storage evaluates offloaded filters correctly (the engine re-checks them, so only completeness of the storage matters: C02)"},
 		Technique:  "SSA summary/typestate analysis of the Processor implementers (line/keep contract), enum-table chain extraction over feasible paths from parser tokens to built matchers, finite-case truth tables, dominance and path rules on the offload scan and the per-record pipeline",
@@ -57,8 +58,11 @@ func init() {
 			ruleLabelSetReadersPure(r)
 			ruleMergeIter(r) // no phantom or lost records between the containers and the pipeline
 			rulePatternLiteralAnchored(r)
-			ruleKeyToLabel(r)      // a filter on a sanitised name finds the label the extractor stored
-			ruleIdentPredicates(r) // unpack keeps a line packed when it rejects a field name
+			ruleKeyToLabel(r)                                                // a filter on a sanitised name finds the label the extractor stored
+			ruleIdentPredicates(r)                                           // unpack keeps a line packed when it rejects a field name
+			ruleNoInPlaceValueMutation(r, []string{enginePkg, metricPkg}, 2) // a selector label that a stage rewrites in place changes for the later records
+			ruleNoUnsafeStrings(r, []string{enginePkg, dockerlogPkg})
+			ruleDaemonLog(r)
 		},
 	})
 }
